@@ -259,7 +259,7 @@ impl Property for C11 {
         }
     }
     fn required_labels(&self, _tier: Tier) -> Vec<&'static str> {
-        vec!["nontrivial", "obsolete-terms", "shorter-route-over-higher-ancestor", "tie", "no-common-ancestor", "diamond", "depth>255", "annotated-with-all-kinds", "ancestors>30", "bulk>65535-terms", "sub-ontology"]
+        vec!["nontrivial", "obsolete-terms", "shorter-route-over-higher-ancestor", "tie", "no-common-ancestor", "diamond", "depth>255", "annotated-with-all-kinds", "ancestors>30", "bulk>65535-terms", "sub-ontology", "direct-parents>255"]
     }
     fn run_generated(&self, tier: Tier, seed: u64, n: u64, stats: &mut Stats) -> Option<(Value, Failure)> {
         run_typed(strategy(tier), seed, n, stats, check)
@@ -285,11 +285,21 @@ impl Property for C11 {
             }
             return Ok(r);
         }
+        if let Some(b) = case.get("fanin") {
+            // one term with more direct parents than an 8-bit counter holds
+            let v: (u32, u32) = serde_json::from_value(b.clone()).map_err(|e| e.to_string())?;
+            stats.cases += 1;
+            let r = check(&super::common::fanin_facts(v.0, v.1, 0), stats);
+            if r.is_ok() {
+                stats.label("direct-parents>255");
+            }
+            return Ok(r);
+        }
         replay_typed::<Facts, _>(case, stats, check)
     }
     fn isolated_plans(&self, tier: Tier, seed: u64) -> Vec<Value> {
         let _ = seed;
-        let mut out = vec![json!({"deep": (270u32, 7919u32)}), json!({"deep": (262u32, 104_729u32)}), json!({"bulk": (65_700u32, 7919u32)})];
+        let mut out = vec![json!({"deep": (270u32, 7919u32)}), json!({"deep": (262u32, 104_729u32)}), json!({"bulk": (65_700u32, 7919u32)}), json!({"fanin": (300u32, 7919u32)})];
         if tier == Tier::Thorough {
             out.push(json!({"deep": (600u32, 1_299_709u32)}));
         }
